@@ -23,7 +23,7 @@ type diffCase struct {
 	AfterBigKiB int `json:"after_big_comparison_kib,omitempty"`
 }
 
-func linesOf(s string) []string { return strings.Split(s, "\n") }
+func vhLinesOf(s string) []string { return strings.Split(s, "\n") }
 
 // ---- R3: positional parse of the NO_COLOR report -------------------------------------------------
 
@@ -53,10 +53,10 @@ func parseReport(rep string) (*parsedReport, error) {
 	rest = rest[nl+1:]
 	p := &parsedReport{}
 	var err error
-	if p.deleted, err = headerCount(h1, "- Snapshot ", "- "); err != nil {
+	if p.deleted, err = vhHeaderCount(h1, "- Snapshot ", "- "); err != nil {
 		return nil, err
 	}
-	if p.inserted, err = headerCount(h2, "+ Received ", "+ "); err != nil {
+	if p.inserted, err = vhHeaderCount(h2, "+ Received ", "+ "); err != nil {
 		return nil, err
 	}
 	if !strings.HasPrefix(rest, "\n") {
@@ -65,7 +65,7 @@ func parseReport(rep string) (*parsedReport, error) {
 	rest = rest[1:]
 	// the body is the diff (every diff line ends with \n) followed by one "\n"
 	if !strings.HasSuffix(rest, "\n\n") && rest != "\n" {
-		return nil, fmt.Errorf("body does not end with a blank line: %q", clip(rest))
+		return nil, fmt.Errorf("body does not end with a blank line: %q", vhClip(rest))
 	}
 	body := strings.TrimSuffix(rest, "\n")
 	if body == "" {
@@ -89,13 +89,13 @@ func parseReport(rep string) (*parsedReport, error) {
 		case strings.HasPrefix(l, "  "):
 			p.equals++
 		default:
-			return nil, fmt.Errorf("body line %d has no diff prefix: %q", i, clip(l))
+			return nil, fmt.Errorf("body line %d has no diff prefix: %q", i, vhClip(l))
 		}
 	}
 	return p, nil
 }
 
-func headerCount(h, prefix, sign string) (int, error) {
+func vhHeaderCount(h, prefix, sign string) (int, error) {
 	if !strings.HasPrefix(h, prefix) {
 		return 0, fmt.Errorf("header %q does not start with %q", h, prefix)
 	}
@@ -112,7 +112,7 @@ func headerCount(h, prefix, sign string) (int, error) {
 
 // removable decides whether removing dels (in order) from a and ins (in order) from b can leave
 // equal sequences. State (i, j, d): p = j - (i - d).
-func removable(a, b, dels, ins []string) bool {
+func vhRemovable(a, b, dels, ins []string) bool {
 	if len(a)-len(dels) != len(b)-len(ins) || len(a) < len(dels) || len(b) < len(ins) {
 		return false
 	}
@@ -148,7 +148,7 @@ func removable(a, b, dels, ins []string) bool {
 
 // ---- R4: the line edit script ----------------------------------------------------------------------
 
-func withNL(ls []string) []string {
+func vhWithNL(ls []string) []string {
 	out := make([]string, len(ls))
 	for i, l := range ls {
 		out[i] = l + "\n"
@@ -306,35 +306,35 @@ func checkDiffCase(c diffCase) error {
 			return fmt.Errorf("R1: empty report for two different big texts")
 		}
 		if after := prettyDiff(a, b, "", 0); after != alone {
-			return fmt.Errorf("the report of a pair depends on the comparison made before it (two texts of %d KiB each):\nalone %q\nafter %q", c.AfterBigKiB, clip(alone), clip(after))
+			return fmt.Errorf("the report of a pair depends on the comparison made before it (two texts of %d KiB each):\nalone %q\nafter %q", c.AfterBigKiB, vhClip(alone), vhClip(after))
 		}
 	}
 	rep := prettyDiff(a, b, "", 0)
 	// R1
 	if (rep == "") != (a == b) {
 		if a == b {
-			return fmt.Errorf("R1: non-empty report for identical texts: %q", clip(rep))
+			return fmt.Errorf("R1: non-empty report for identical texts: %q", vhClip(rep))
 		}
-		return fmt.Errorf("R1: empty report for different texts a=%q b=%q", clip(a), clip(b))
+		return fmt.Errorf("R1: empty report for different texts a=%q b=%q", vhClip(a), vhClip(b))
 	}
 	// the footer variant must agree on emptiness
 	rep2 := prettyDiff(a, b, "x.snap", 7)
 	if (rep2 == "") != (a == b) {
 		return fmt.Errorf("R1: report with footer: empty=%v for a==b %v", rep2 == "", a == b)
 	}
-	al, bl := linesOf(a), linesOf(b)
+	al, bl := vhLinesOf(a), vhLinesOf(b)
 	if !c.Color && rep != "" {
 		// R2
 		if !strings.Contains(a, "\x1b") && !strings.Contains(b, "\x1b") && strings.Contains(rep, "\x1b") {
-			return fmt.Errorf("R2: escape sequence in NO_COLOR report: %q", clip(rep))
+			return fmt.Errorf("R2: escape sequence in NO_COLOR report: %q", vhClip(rep))
 		}
 		// R3
 		p, err := parseReport(rep)
 		if err != nil {
-			return fmt.Errorf("R3: %v; report %q", err, clip(rep))
+			return fmt.Errorf("R3: %v; report %q", err, vhClip(rep))
 		}
 		if p.deleted != len(p.dels) || p.inserted != len(p.ins) {
-			return fmt.Errorf("R3: header says -%d +%d, body shows -%d +%d; report %q", p.deleted, p.inserted, len(p.dels), len(p.ins), clip(rep))
+			return fmt.Errorf("R3: header says -%d +%d, body shows -%d +%d; report %q", p.deleted, p.inserted, len(p.dels), len(p.ins), vhClip(rep))
 		}
 		inA, inB := map[string]bool{}, map[string]bool{}
 		for _, l := range al {
@@ -345,23 +345,23 @@ func checkDiffCase(c diffCase) error {
 		}
 		for _, l := range p.dels {
 			if !inA[l] {
-				return fmt.Errorf("R3: '-' line %q is not a line of the stored text", clip(l))
+				return fmt.Errorf("R3: '-' line %q is not a line of the stored text", vhClip(l))
 			}
 		}
 		for _, l := range p.ins {
 			if !inB[l] {
-				return fmt.Errorf("R3: '+' line %q is not a line of the received text", clip(l))
+				return fmt.Errorf("R3: '+' line %q is not a line of the received text", vhClip(l))
 			}
 		}
 		if len(p.dels)+len(p.ins) == 0 {
-			return fmt.Errorf("R3: non-empty report without any changed line: %q", clip(rep))
+			return fmt.Errorf("R3: non-empty report without any changed line: %q", vhClip(rep))
 		}
-		if !removable(al, bl, p.dels, p.ins) {
-			return fmt.Errorf("R3: removing the '-' lines from the stored and the '+' lines from the received text does not leave the same lines; report %q", clip(rep))
+		if !vhRemovable(al, bl, p.dels, p.ins) {
+			return fmt.Errorf("R3: removing the '-' lines from the stored and the '+' lines from the received text does not leave the same lines; report %q", vhClip(rep))
 		}
 	}
 	// R4 on the sequences the report is built from
-	return checkScript(withNL(al), withNL(bl))
+	return checkScript(vhWithNL(al), vhWithNL(bl))
 }
 
 func classifyDiffCase(c diffCase) ([]string, bool) {
@@ -383,7 +383,7 @@ func classifyDiffCaseBase(c diffCase) ([]string, bool) {
 	if a == b {
 		return append(cls, "identical"), false
 	}
-	al, bl := linesOf(a), linesOf(b)
+	al, bl := vhLinesOf(a), vhLinesOf(b)
 	nt := false
 	if len(al) > 10 || len(bl) > 10 {
 		cls = append(cls, "over_10_lines")
@@ -410,7 +410,7 @@ func classifyDiffCaseBase(c diffCase) ([]string, bool) {
 		cls = append(cls, "whitespace_only_difference")
 		nt = true
 	}
-	if !validUTF8(a) || !validUTF8(b) {
+	if !vhValidUTF8(a) || !vhValidUTF8(b) {
 		cls = append(cls, "invalid_utf8")
 		if strings.ToValidUTF8(a, "?") == strings.ToValidUTF8(b, "?") {
 			cls = append(cls, "invalid_utf8_only_difference")
@@ -421,7 +421,7 @@ func classifyDiffCaseBase(c diffCase) ([]string, bool) {
 		cls = append(cls, "inline_path")
 		nt = true
 	}
-	if hunksOf(al, bl) >= 2 {
+	if vhHunksOf(al, bl) >= 2 {
 		cls = append(cls, "multi_hunk")
 		nt = true
 	}
@@ -435,7 +435,7 @@ func isSingleLineText(s string) bool {
 
 // hunksOf: number of maximal changed runs separated by > 6 common lines (harness-side estimate
 // through a plain LCS-free scan: common prefix/suffix stripped, then gaps counted).
-func hunksOf(a, b []string) int {
+func vhHunksOf(a, b []string) int {
 	// cheap estimate: positions where a and b (aligned from the front) differ, grouped
 	n := len(a)
 	if len(b) < n {
@@ -486,8 +486,8 @@ func TestC13_Exhaustive(t *testing.T) {
 	}
 	seqs = append(seqs, "")
 	build(nil, maxLen)
-	nshards, _ := strconv.Atoi(getenv("VERIF_NSHARDS", "1"))
-	shard, _ := strconv.Atoi(getenv("VERIF_SHARD", "0"))
+	nshards, _ := strconv.Atoi(vhGetenv("VERIF_NSHARDS", "1"))
+	shard, _ := strconv.Atoi(vhGetenv("VERIF_SHARD", "0"))
 	p := c13prop
 	p.enumerate(t, func(yield func(diffCase) bool) {
 		k := 0
